@@ -587,8 +587,11 @@ fn run_inner(r: Run, arg0: Option<&str>) -> ProcOut {
             }
             buf.truncate(got);
             stdout = buf;
-            let _ = so.shutdown(std::net::Shutdown::Both);
-            drop(so); // the consumer goes away
+            // the consumer stops reading: further writes fail with EPIPE. (The descriptor itself is kept
+            // until the process is gone: CLOSING a socket that still holds unread data resets the connection,
+            // and the writer would see ECONNRESET instead - a different failure than the one meant here.)
+            let _ = so.shutdown(std::net::Shutdown::Read);
+            sock_peer = Some(so);
             let _ = gate_tx.send(());
         }
         StdoutKind::Pty => {
@@ -610,6 +613,7 @@ fn run_inner(r: Run, arg0: Option<&str>) -> ProcOut {
     }
     let _ = gate_tx.send(());
     let status = child.wait();
+    drop(sock_peer);
     done.store(true, Ordering::Relaxed);
     if let Some(t) = stdin_thread {
         let _ = t.join();
